@@ -8,7 +8,7 @@ LEVEL = 'other'
 EXPLANATION = ('Static rules on GroupByObserver: G1 in next() the group of a new key is announced downstream (inside the once-only '
                'or_insert_with closure) before the item is forwarded; on every path the item is forwarded exactly once, to the map entry looked '
                'up under the key computed from this very item, and the announced group wraps a clone of the subject that is inserted; G2 '
-               'error()/complete() deliver the terminal to every drained group and then, once, to the outer observer; G3 GroupByOp is '
+               'error()/complete() deliver the terminal to every drained group and then, once, to the outer observer; G4 next() never removes a group from the key map (one group per key for the life of the source); G3 GroupByOp is '
                'instantiated for Subject and SubjectThreads only (handle types). Does not decide first-appearance order, hash routing or '
                'round-trip equality.')
 ASSUMPTIONS = ['HashMap::entry/or_insert_with behave as documented']
@@ -67,6 +67,13 @@ def check(cx):
                     ok = False
                     msg = 'the announced group does not wrap (a clone of) the subject that is inserted into the map'
         res.append(Finding(ID, 'G1', label, ok, msg, fn['span'], wit))
+        # G4: a group lives as long as the source: next() never removes entries from the map
+        removers = [x for x in g.nodes if x['kind'] == 'call' and x['args'] and x['name'].rsplit('::', 1)[-1] in
+                    ('retain', 'remove', 'remove_entry', 'clear', 'drain', 'extract_if', 'take') and recv_class(x['args'][0]).endswith('.subjects')]
+        res.append(Finding(ID, 'G4', label, not removers,
+                           'groups are never dropped while the source is live' if not removers else
+                           'next() removes groups from the key map: a key that recurs is announced a second time and its items are split over two groups; the dropped group never gets its terminal',
+                           g.loc(removers[0]) if removers else fn['span'], [node_desc(g, x) for x in removers]))
         for meth in ('error', 'complete'):
             fn = cx.method(im, meth)
             g = cx.graph(fn['key'])
